@@ -1,10 +1,43 @@
 (** Model/InferWrite.v — how the inferred state paths are written back into
     the NoteSequence (chord_inference.infer_chords_for_sequence, the loop over
     [key_chords]; melody_inference.infer_melody_for_sequence, the loop over
-    [melody_events]).  Times and figures are integers (ticks / figure ids). *)
+    [melody_events]), together with the frame grids those loops walk over.
+    Times are exact integer ticks, chord figures / keys are integer ids
+    (index into chord_inference._CHORDS / pitch class). *)
 From Coq Require Import ZArith List Bool.
 Import ListNotations.
 Local Open Scope Z_scope.
+
+(** * Python [sorted] on times, and the "keep strictly greater than the predecessor" pass *)
+Fixpoint insert (x : Z) (l : list Z) : list Z :=
+  match l with
+  | [] => [x]
+  | y :: r => if x <=? y then x :: l else y :: insert x r
+  end.
+Fixpoint isort (l : list Z) : list Z :=
+  match l with [] => [] | x :: r => insert x (isort r) end.
+
+(* [sorted_beats[i] for i in range(n) if i == 0 or sorted_beats[i].time > sorted_beats[i-1].time]
+   — the comparison is with the predecessor in the sorted list, kept or not. *)
+Fixpoint uniq_from (prev : Z) (l : list Z) : list Z :=
+  match l with
+  | [] => []
+  | x :: r => if prev <? x then x :: uniq_from x r else uniq_from x r
+  end.
+Definition uniq (l : list Z) : list Z :=
+  match l with [] => [] | x :: r => x :: uniq_from x r end.
+
+(** * Chord frames *)
+(* quantized sequence: frame k starts at k * seconds_per_chord *)
+Definition frame_times_fixed (spc : Z) (n : nat) : list Z :=
+  map (fun k => Z.of_nat k * spc) (seq 0 n).
+
+(* beat-annotated sequence: frame 0 starts at 0, frame k at the k-th distinct
+   beat time strictly inside (0, total_time) *)
+Definition interior_beats (beats : list Z) (total : Z) : list Z :=
+  uniq (isort (filter (fun t => (0 <? t) && (t <? total)) beats)).
+Definition frame_times_beats (beats : list Z) (total : Z) : list Z :=
+  0 :: interior_beats beats total.
 
 (** * Chord annotations: one annotation whenever the figure differs from the current one *)
 Fixpoint write_chords (cur : option Z) (l : list (Z * Z)) : list (Z * Z) :=
@@ -17,8 +50,27 @@ Fixpoint write_chords (cur : option Z) (l : list (Z * Z)) : list (Z * Z) :=
       end
   end.
 
+(* what infer_chords_for_sequence adds for a path of figures (or of keys, with
+   add_key_signatures=True: the same loop shape on [_PITCH_CLASS_NAMES[key]]) *)
+Definition chords_written (times : list Z) (figs : list Z) : list (Z * Z) :=
+  write_chords None (combine times figs).
+
+(** * Melody frames: event times separating frames *)
+(* sorted(set(onsets + offsets) - {0.0, total_time}) *)
+Definition event_times (starts ends : list Z) (total : Z) : list Z :=
+  uniq (isort (filter (fun t => negb (t =? 0) && negb (t =? total)) (starts ++ ends))).
+
 (** * Melody notes *)
 Inductive mev := Rest | Onset (p : Z) | Sustain (p : Z).
+
+(* _melody_viterbi.index_to_event *)
+Definition index_to_event (pitches : list Z) (i : nat) : mev :=
+  let np := length pitches in
+  match i with
+  | O => Rest
+  | Datatypes.S k => if Nat.leb i np then Onset (nth k pitches 0)
+                     else Sustain (nth (k - np) pitches 0)
+  end.
 
 Record mnote := mkM { m_start : Z; m_end : Z; m_pitch : Z }.
 
@@ -46,3 +98,7 @@ Fixpoint write_melody (cur : option (Z * Z)) (l : list (mev * Z)) (total : Z) : 
       | None => None
       end
   end.
+
+(* for event, time in zip(melody_events, [0.0] + event_times) *)
+Definition melody_written (evs : list mev) (etimes : list Z) (total : Z) : option (list mnote) :=
+  write_melody None (combine evs (0 :: etimes)) total.
